@@ -216,8 +216,10 @@ func init() {
 		// prefix / suffix texts that contain the keywords themselves, and keyword-like words: the LAST keyword of the
 		// tag starts the suffix (parser oracle on the printed AST; Go output vs model on the dumped tree)
 		var pcases []*RCase
-		for _, pre := range []string{"[ sfx ]", "a suffix b", "x prefix y", "pfx", "( sfx", "sfx )", "<b class=\"sfx\">"} {
-			for _, suf := range []string{"!", "</b>", "sfxx", "; sfx-like", "pfx"} {
+		// … and texts that END in a brace or a percent sign (JSON: `pfx {"k": sfx }`): only the delimiters of the tag are
+		// cut off, not every brace next to them
+		for _, pre := range []string{"[ sfx ]", "a suffix b", "x prefix y", "pfx", "( sfx", "sfx )", "<b class=\"sfx\">", `{"name":`, "{", "width:{", "100%", "}"} {
+			for _, suf := range []string{"!", "</b>", "sfxx", "; sfx-like", "pfx", "}", "%", "100%", "]}", "{", "}}"} {
 				for _, kw := range [][2]string{{"pfx", "sfx"}, {"prefix", "suffix"}, {"pfx", "suffix"}} {
 					body := []TNode{Text{"<"}, Print{Path: "si", Pre: pre, Suf: suf, PreKW: kw[0], SufKW: kw[1]}, Text{">"}, Print{Path: "nope", Pre: pre, Suf: suf, PreKW: kw[0], SufKW: kw[1]}}
 					c := &RCase{Tpls: []TplDef{{Key: "main", Src: Source(body), KeepFmt: true, Ast: body}}, Meta: map[string]any{"keyword-in-prefix": pre, "suffix": suf}}
